@@ -37,7 +37,7 @@ def gen_configs(tier, rng):
         for how, v in keep:
             kind = rng.choice(["grid", "grid", "cases", "casesgrid"])
             shuffle = rng.choice([False, False, True, rng.randint(2, 99)])
-            extras = rng.choice(["none", "none", "constants", "runner"])
+            extras = rng.choice(["none", "none", "constants", "runner", "runner-override"])
             cfgs.append({"n": n, "how": how, "v": v, "kind": kind, "shuffle": shuffle, "extras": extras,
                          "dims_seed": rng.randint(0, 10 ** 6),
                          # cases x grid goes through either sowing entry point
@@ -81,6 +81,11 @@ def observe(cfg, tmp):
     if cfg["extras"] == "runner":
         farmer = xyzpy.Runner(_fn, var_names="out", constants={"rc": 3}, resources={"rr": 4})
         all_consts = {"rr": 4, "rc": 3}
+    if cfg["extras"] == "runner-override":
+        # a constant given at sow time overrides the runner's own, exactly as in a direct run_combos(constants=...)
+        farmer = xyzpy.Runner(_fn, var_names="out", constants={"rc": 3, "rd": 1}, resources={"rr": 4})
+        sow_consts = {"rc": 9}
+        all_consts = {"rr": 4, "rc": 9, "rd": 1}
     parent = os.path.join(tmp, "p")
     os.makedirs(parent, exist_ok=True)
     shutil.rmtree(os.path.join(parent, ".xyz-c07"), ignore_errors=True)
@@ -124,8 +129,11 @@ def observe(cfg, tmp):
         return 0
     if farmer is not None:
         farmer.fn = rec
+        over = dict(sow_consts or {})
         if cases is not None and not combos:
-            farmer.run_cases([(c["k"], c["j"]) for c in cases], fn_args=("k", "j"), verbosity=0)
+            farmer.run_cases([(c["k"], c["j"]) for c in cases], fn_args=("k", "j"), constants=over, verbosity=0)
+        elif cfg["extras"] == "runner-override":
+            farmer.run_combos(combos, cases=cases, constants=over, verbosity=0)
         else:
             xyzpy.combo_runner(rec, combos, cases=cases, constants=all_consts, verbosity=0)
         farmer.fn = _fn
@@ -294,11 +302,13 @@ def run(tier, seed):
     c = core.Check("C07", tier, seed)
     gen = core.regen()
     b = core.build(PROP_FILE)
-    c.cov["translator"] = {k: gen.get(k) for k in ("GenBatch", "GenStages")}
+    c.cov["translator"] = {k: gen.get(k) for k in ("GenBatch", "GenStages", "GenFarmer")}
     c.cov["build"] = {"ok": b["ok"], "failed_file": b["failed_file"], "wall_s": round(b.get("wall_s", 0), 1)}
     directed = []
     if not gen["GenBatch"]["ok"]:
         c.obligation_broken("translator GenBatch", gen["GenBatch"]["detail"])
+    if "GenFarmer" in gen and not gen["GenFarmer"]["ok"]:
+        c.obligation_broken("translator GenFarmer (precedence of sow-time constants)", gen["GenFarmer"]["detail"])
     if "GenStages" in gen and not gen["GenStages"]["ok"]:
         c.obligation_broken("translator GenStages (call sites of the batch planner)", gen["GenStages"]["detail"])
     if not b["ok"]:
